@@ -334,6 +334,9 @@ func gen(g *hx.Gen) {
 		c := genCompact(r)
 		g.Emit("b2c %s", blockchain.CompactToBig(c).String())
 		g.Emit("work %x", c)
+		if r.Chance(10) {
+			g.Emit("work %x", uint32(0x1e+r.Intn(4))<<24|uint32(r.U64())&0x7fffff) // around the 32-byte edge, incl. 0x207fffff style limits
+		}
 		g.Emit("rt %x", c)
 		// a canonical neighbour: what the encoder itself makes of a random target, perturbed
 		cc := blockchain.BigToCompact(new(big.Int).Abs(genBig(r)))
@@ -371,6 +374,9 @@ func gen(g *hx.Gen) {
 		per := int64(1 + r.Intn(300))
 		blocks := int64(2 + r.Intn(40)) // >= 2: with 1 the first node IS the previous node
 		ts := per * blocks
+		if per > 1 && r.Chance(30) {
+			ts += 1 + int64(r.Intn(int(per-1))) // TargetTimespan not a whole multiple of TargetTimePerBlock
+		}
 		if r.Chance(30) {
 			adj, per, ts = 4, 120, 86400
 			blocks = 720
@@ -438,6 +444,9 @@ func genChains(g *hx.Gen, limits []*big.Int) {
 		per := int64(1 + r.Intn(60))
 		blocks := int64(2 + r.Intn(30))
 		ts := per * blocks
+		if per > 1 && r.Chance(30) {
+			ts += 1 + int64(r.Intn(int(per-1)))
+		}
 		if ts/adj == 0 {
 			continue
 		}
@@ -584,6 +593,19 @@ func oracle(t []string, out string) *hx.Violation {
 		if nb.Cmp(want) > 0 || new(big.Int).Add(nb, new(big.Int).Rsh(nb, 15)).Cmp(want) < 0 {
 			return &hx.Violation{Kind: "retarget-window", Detail: fmt.Sprintf("new target %x is not old*clamp(span of the last %d blocks = %d s)/%d up to compaction", nb, blocks, span, tsp)}
 		}
+	case "work":
+		// chain work is 2^256/(target+1) of the very target the PoW check uses, 0 for non-positive targets
+		if out == "panic" {
+			return nil
+		}
+		tgt := blockchain.CompactToBig(u32hex(t[1]))
+		want := big.NewInt(0)
+		if tgt.Sign() > 0 {
+			want = new(big.Int).Div(new(big.Int).Lsh(big.NewInt(1), 256), new(big.Int).Add(tgt, big.NewInt(1)))
+		}
+		if want.String() != out {
+			return &hx.Violation{Kind: "work-not-from-target", Detail: fmt.Sprintf("CalcWork(%s) = %s, but 2^256/(CompactToBig+1) = %s", t[1], out, want.String())}
+		}
 	case "rt":
 		// decoding a canonical value and re-encoding it is the identity
 		c := u32hex(t[1])
@@ -645,6 +667,21 @@ func oracle(t []string, out string) *hx.Violation {
 					lo.Set(lim)
 				}
 				if lim.Sign() >= 0 && lim.BitLen() <= 8*254 {
+					// the exact rule: old * clamp(actual) / TargetTimespan, capped, up to compaction
+					span := int64(uint32(mustI(t[9])) - uint32(mustI(t[8])))
+					if span < ts/adj {
+						span = ts / adj
+					} else if span > ts*adj {
+						span = ts * adj
+					}
+					want := new(big.Int).Mul(old, big.NewInt(span))
+					want.Div(want, big.NewInt(ts))
+					if want.Cmp(lim) > 0 {
+						want.Set(lim)
+					}
+					if nb.Cmp(want) > 0 || new(big.Int).Add(nb, new(big.Int).Rsh(nb, 15)).Cmp(want) < 0 {
+						return &hx.Violation{Kind: "retarget-value", Detail: fmt.Sprintf("new target %x is not old*clamp(%d s)/%d s (TargetTimespan) up to compaction", nb, span, ts)}
+					}
 					if new(big.Int).Add(nb, new(big.Int).Rsh(nb, 15)).Cmp(lo) < 0 {
 						return &hx.Violation{Kind: "retarget-factor-low", Detail: "new target below min(old/adjustmentFactor, limit) by more than the compaction error"}
 					}
